@@ -21,10 +21,18 @@ import (
 	"github.com/cenkalti/rain/v2/torrent"
 )
 
+var prealloc [][]byte
+
 func TestSim(t *testing.T) {
 	if os.Getenv("SIMRT") == "" {
 		fmt.Fprintln(os.Stderr, "harness: SIMRT=1 GOMAXPROCS=1 GOGC=off required")
 		os.Exit(3)
+	}
+	if n, _ := strconv.Atoi(os.Getenv("SIM_PREALLOC")); n > 0 {
+		// debugging aid: perturb heap addresses before the bubble
+		for i := 0; i < n; i++ {
+			prealloc = append(prealloc, make([]byte, 1+i%4000))
+		}
 	}
 	var plan *worlds.Plan
 	tier := os.Getenv("SIM_TIER")
@@ -70,6 +78,7 @@ func TestSim(t *testing.T) {
 	}
 	os.Setenv("TMPDIR", tmp)
 	simrt.Verbose = os.Getenv("SIM_VERBOSE") != ""
+	simrt.DebugDraws = os.Getenv("SIM_DEBUGDRAWS") != ""
 	if os.Getenv("SIM_RAINLOG") == "" {
 		torrent.DisableLogging()
 	}
